@@ -103,15 +103,29 @@ theorem tot_slashS {s s' : SState} {val : Nat} {p fr : Int} {skip : List Nat} {b
     · -- the burnt amount is never negative, whatever the validator's tokens
       rw [ea]; unfold burnAmount; dsimp only; split <;> omega
 
-/-- is the call a validator slash? -/
+theorem tot_slashRefillS {s s' : SState} {val : Nat} {p fr : Int} {skip : List Nat} {refill : List (Nat × Int)} {burn : Int}
+    (h : Inv s.b) (hc : slashRefillS s val p fr skip refill = .ok (s', burn)) : tot s'.b = tot s.b - burn ∧ 0 ≤ burn := by
+  obtain ⟨_, _, a, ea, b1, _, f1, hh⟩ := slashRefillS_ok h hc
+  constructor
+  · rw [(refillHooks_bank _ _ _ hh).tot]
+    show b1.supply - burn + b1.offset = s.b.supply + s.b.offset - burn
+    rw [f1.bank.1, f1.bank.2]; omega
+  · rw [ea]; unfold burnAmount; dsimp only; split <;> omega
+
+/-- is the call a validator slash (alone, or taken together with the top-ups of the locks it empties)? -/
 def isSlash : OpS → Bool
   | .slash .. => true
+  | .slashRefill .. => true
   | _ => false
 
 /-- the amount a call burns from the bank supply: what `Slash` returns, 0 for every other call (and for a failed one). -/
 def burntBy (s : SState) : OpS → Int
   | .slash v p f x =>
     match slashS s v p f x with
+    | .ok r => r.2
+    | .error _ => 0
+  | .slashRefill v p f x t =>
+    match slashRefillS s v p f x t with
     | .ok r => r.2
     | .error _ => 0
   | _ => 0
@@ -141,6 +155,18 @@ theorem tot_applyOpS {s s' : SState} {op : OpS} (h : Inv s.b) (hc : applyOpS s o
     subst hqr
     show tot r.b = tot s.b - 0
     rw [tot_epochOS h hr]; omega
+  | slashRefill v p f x t =>
+    unfold applyOpS at hc
+    obtain ⟨q, hq, hqs⟩ := map_ok hc
+    subst hqs
+    obtain ⟨r, hr, hqr⟩ := map_ok (show (slashRefillS s v p f x t).map _ = .ok q from hq)
+    subst hqr
+    have := (tot_slashRefillS h (show slashRefillS s v p f x t = .ok (r.1, r.2) from hr)).1
+    show tot r.1.b = tot s.b - burntBy s (.slashRefill v p f x t)
+    have e : burntBy s (.slashRefill v p f x t) = r.2 := by
+      show (match slashRefillS s v p f x t with | .ok r => r.2 | .error _ => 0) = r.2
+      rw [hr]
+    rw [e]; exact this
   | base op =>
     show tot s'.b = tot s.b - 0
     rw [Int.sub_zero]
@@ -205,6 +231,7 @@ theorem burntAlong_noSlash : ∀ (ops : List OpS) (s : SState), (∀ op, op ∈ 
       have := h op (List.mem_cons_self ..)
       cases op with
       | slash _ _ _ _ => cases this
+      | slashRefill _ _ _ _ _ => cases this
       | base _ => rfl
       | epochO _ _ => rfl
     rw [h1]
